@@ -48,6 +48,7 @@ type c06wConnCfg struct {
 	blockClose bool // the transport-level Close blocks on a gate
 	streams    int  // inbound streams the remote opens on this conn (driver stimuli)
 	hReset     bool // the stream handler resets the stream (else it stays open until doClose resets it)
+	closeErr   bool // fault point: the transport-level Close / CloseWithError returns a non-nil error (the conn is closed all the same)
 }
 
 type c06wCfg struct {
@@ -67,21 +68,21 @@ func c06wB(x bool) int64 {
 func (c *c06wCfg) meta(mode int64) []int64 {
 	m := []int64{mode, int64(len(c.conns))}
 	for _, k := range c.conns {
-		m = append(m, int64(k.peer), c06wB(k.lim), c06wB(k.proxy), c06wB(k.closeIt), int64(k.connAct), c06wB(k.blockConn), c06wB(k.blockDisc), c06wB(k.blockClose), int64(k.streams), c06wB(k.hReset))
+		m = append(m, int64(k.peer), c06wB(k.lim), c06wB(k.proxy), c06wB(k.closeIt), int64(k.connAct), c06wB(k.blockConn), c06wB(k.blockDisc), c06wB(k.blockClose), int64(k.streams), c06wB(k.hReset), c06wB(k.closeErr))
 	}
 	return append(m, c06wB(c.blockPub), c06wB(c.withClose), c06wB(c.withClose2))
 }
 
 func c06wCfgFromMeta(m []int64) (int64, *c06wCfg, []int64) {
-	if len(m) < 2 || m[1] < 0 || len(m) < 2+10*int(m[1])+3 {
+	if len(m) < 2 || m[1] < 0 || len(m) < 2+11*int(m[1])+3 {
 		return 0, nil, nil
 	}
 	c := &c06wCfg{}
 	for i := 0; i < int(m[1]); i++ {
-		f := m[2+10*i:]
-		c.conns = append(c.conns, c06wConnCfg{peer: int(f[0]), lim: f[1] != 0, proxy: f[2] != 0, closeIt: f[3] != 0, connAct: int(f[4]), blockConn: f[5] != 0, blockDisc: f[6] != 0, blockClose: f[7] != 0, streams: int(f[8]), hReset: f[9] != 0})
+		f := m[2+11*i:]
+		c.conns = append(c.conns, c06wConnCfg{peer: int(f[0]), lim: f[1] != 0, proxy: f[2] != 0, closeIt: f[3] != 0, connAct: int(f[4]), blockConn: f[5] != 0, blockDisc: f[6] != 0, blockClose: f[7] != 0, streams: int(f[8]), hReset: f[9] != 0, closeErr: f[10] != 0})
 	}
-	f := m[2+10*int(m[1]):]
+	f := m[2+11*int(m[1]):]
 	c.blockPub, c.withClose, c.withClose2 = f[0] != 0, f[1] != 0, f[2] != 0
 	return m[0], c, f[3:]
 }
@@ -234,6 +235,11 @@ func (c *c06wConn) Close() error {
 		close(c.closed)
 		c.r.rec(34, int64(c.i), 0, 0)
 	})
+	if c.r.cfg.conns[c.i].closeErr {
+		// the transport reports an error although the conn is gone (socket / session already torn down)
+		c.r.cover("sw.transport_close_error")
+		return errors.New("c06w: transport close failed")
+	}
 	return nil
 }
 func (c *c06wConn) CloseWithError(network.ConnErrorCode) error { return c.Close() }
@@ -647,8 +653,21 @@ func c06wExecute(t *testing.T, out *verifh.Out, cfg *c06wCfg, maxSteps int, choi
 		}
 		synctest.Wait()
 		line = r.finish(out, 0, chosen, r.outstanding.Load() != 0)
-		r.s.Close()
+		// shut the swarm down (a no-op when the script already did).  A Swarm.Close that does not return after a
+		// quiescent run is judged too: the run is written with Swarm.Close.call + Stuck appended (clause 6)
+		closed := make(chan struct{})
+		go func() { r.s.Close(); close(closed) }()
 		synctest.Wait()
+		select {
+		case <-closed:
+		default:
+			line = append(line, 37, 0, 0, 0, 16, 0, 0, 0)
+			out.Cover("sw.stuck_final_close")
+			out.Case(line)
+			out.Close()
+			fmt.Println("C06: Swarm.Close does not return after a quiescent run; case written")
+			os.Exit(3)
+		}
 	})
 	return
 }
@@ -824,6 +843,22 @@ func TestVerifC06Sw(t *testing.T) {
 		cfg2 := &c06wCfg{conns: []c06wConnCfg{{closeIt: true, blockDisc: true}, {peer: m & 1, closeIt: m&2 != 0, blockConn: true}}}
 		c06wExplore(t, out, cfg2, budget, "listing2")
 	}
+	// F8: fault point: the transport conn's Close returns an error (the conn is closed and delisted all the same): Disconnected,
+	// the events and Swarm.Close must not depend on it.  One conn; two conns to one peer (direct / limited) closed back to back
+	for m := 0; m < 4; m++ {
+		cfg := &c06wCfg{conns: []c06wConnCfg{{closeIt: m == 0 || m == 2, closeErr: true, connAct: c06wI(m == 3)}}, withClose: m != 0}
+		c06wExplore(t, out, cfg, budget, "closeerr1")
+	}
+	for a := 0; a < 2; a++ {
+		for b := 0; b < 2; b++ {
+			la, pa := c06wClass(a)
+			lb, pb := c06wClass(b)
+			for e := 1; e < 4; e++ {
+				cfg := &c06wCfg{conns: []c06wConnCfg{{lim: la, proxy: pa, closeIt: true, closeErr: e&1 != 0}, {lim: lb, proxy: pb, closeIt: true, closeErr: e&2 != 0}}}
+				c06wExplore(t, out, cfg, budget/3, "closeerr2")
+			}
+		}
+	}
 	// F1: conn classes: one and two conns to one peer, every pair of classes, all driver schedules
 	for a := 0; a < 4; a++ {
 		la, pa := c06wClass(a)
@@ -866,7 +901,7 @@ func TestVerifC06Sw(t *testing.T) {
 			lim, proxy := c06wClass(rnd.Intn(4))
 			cfg.conns = append(cfg.conns, c06wConnCfg{peer: rnd.Intn(2), lim: lim, proxy: proxy, closeIt: rnd.Chance(3, 4), connAct: c06wI(rnd.Chance(1, 6)),
 				blockConn: rnd.Chance(1, 3), blockDisc: rnd.Chance(1, 4), blockClose: rnd.Chance(1, 3),
-				streams: c06wI(rnd.Chance(1, 2)) * (1 + rnd.Intn(2)), hReset: rnd.Chance(1, 2)})
+				streams: c06wI(rnd.Chance(1, 2)) * (1 + rnd.Intn(2)), hReset: rnd.Chance(1, 2), closeErr: rnd.Chance(1, 3)})
 		}
 		c06wRandom(t, out, rnd, cfg, 2, "random")
 	}
